@@ -31,12 +31,26 @@ def quantities(desc, omega, S):
     p = gens.build(desc)
     B = p.get_control_matrix(omega)
     F = p.get_filter_function(omega)
-    inf = ff.infidelity(p, S, omega)
-    return p.total_propagator, B, F, inf
+    # the probe frequencies (resonances and their neighbourhoods, unsorted, nearly coincident) are
+    # not an integration grid: the infidelity is taken on the sorted distinct frequencies, and
+    # compared relative to the integral of |F| S (the trapezoid's own scale) — a signed, almost
+    # cancelling sum would turn the 1e-7-relative truncation of the integrand into an arbitrarily
+    # large relative error of the result
+    os_ = np.unique(omega)
+    Ss = 1/(1 + np.abs(os_))
+    q = gens.build(desc)
+    inf = ff.infidelity(q, Ss, os_)
+    Fs = q.get_filter_function(os_)
+    scale = np.trapz(np.abs(np.einsum('aao->ao', Fs))*Ss, os_, axis=-1)/(2*np.pi*desc['d'])
+    return p.total_propagator, B, F, (inf, scale)
 
 
 def cmp(ctx, check, case, what, a, b, tol=1e-6, features=None):
-    e = gens.rel_err(a, b) if np.max(np.abs(b)) > 1e-300 else float(np.max(np.abs(a)))
+    if isinstance(b, tuple):
+        # (infidelity, scale of the trapezoid)
+        e = float(np.max(np.abs(np.asarray(a[0]) - np.asarray(b[0]))/np.maximum(b[1], 1e-300)))
+    else:
+        e = gens.rel_err(a, b) if np.max(np.abs(b)) > 1e-300 else float(np.max(np.abs(a)))
     if not e <= tol:
         ctx.fail(check, case, {'what': what, 'err': e}, {'tol': tol}, features or {},
                  f'{check}: {what} changed by {e:.3g} (features={case["desc"]["features"]})')
